@@ -65,6 +65,14 @@ func feedPlan(plan string, gap time.Duration, cmds []srcCmd, feed func([]byte)) 
 	switch plan {
 	case "all":
 		feed(streamBytes(cmds))
+	case "behind-slow-flush":
+		k := 2
+		if k > len(cmds) {
+			k = len(cmds)
+		}
+		feed(streamBytes(cmds[:k]))
+		time.Sleep(560 * time.Millisecond) // the ticker flushes the first commands; that flush is slow
+		feed(streamBytes(cmds[k:]))
 	case "per-command":
 		for i := range cmds {
 			feed(encodeCmd(&cmds[i]))
@@ -242,6 +250,16 @@ func runC03isolated(r resIface, c *c03case, rng *prng.R) {
 	srv := miniredis.NewServer()
 	conn := srv.NewConn()
 	conn.BlockReceive = true
+	if c.Plan == "behind-slow-flush" {
+		// the target is slow for one flush: commands pile up behind it, then the stream goes idle
+		slowAt := 1 + rng.Intn(2)
+		d := time.Duration(rng.Range(520, 900)) * time.Millisecond
+		conn.SlowFlush = func(nth int) {
+			if nth == slowAt {
+				time.Sleep(d)
+			}
+		}
+	}
 	pr, pw := io.Pipe()
 	e2eIDs.Lock()
 	e2eIDs.n++
@@ -311,7 +329,7 @@ func c03cfgChild(raw json.RawMessage, scratch string) {
 	cfg.apply()
 	for i := a.Start; i < a.End; i++ {
 		rng := base.At(uint64(i))
-		c := &c03case{Index: i, Cfg: cfg, N: rng.Pick(1, 2, 5, 30, 120, 400), Plan: rng.PickS("all", "all", "per-command", "split-bytes", "gaps", "gaps")}
+		c := &c03case{Index: i, Cfg: cfg, N: rng.Pick(1, 2, 5, 30, 120, 400), Plan: rng.PickS("all", "all", "per-command", "split-bytes", "gaps", "gaps", "behind-slow-flush")}
 		c.DBs = [][]int{{0}, {0, 1}, {0, 1, 2, 3}, {2, 5}, {3}}[rng.Intn(5)]
 		if cfg.TargetDB != -1 && rng.Bool() {
 			c.DBs = append(c.DBs, cfg.TargetDB) // the stream also selects the configured target database itself
@@ -324,7 +342,7 @@ func c03cfgChild(raw json.RawMessage, scratch string) {
 		}
 		c.StartDB = -1
 		c.Mode = "isolated"
-		if i%3 == 0 {
+		if i%3 == 0 && c.Plan != "behind-slow-flush" {
 			c.Mode = "e2e"
 		}
 		if c.Mode == "isolated" && cfg.Resume && rng.Bool() {
@@ -357,7 +375,7 @@ func containsInt(xs []int, x int) bool {
 
 func c03(c *wk.Ctx) {
 	r := c.R
-	r.Rule = "command streams from a master grammar (SELECT switches incl. re-selects and the configured target.db, single/multi-key writes in any letter case, PING, MULTI..EXEC blocks, sentinel hello publishes, EVAL/SCRIPT, opinfo, keep-alive newlines) x configurations (db white/black list, key white/black list, filter.lua, target.db, resume, sender.count {1,2,3,1024} x sender.size {1,64,65535,max}) x arrival plans (all at once, one command per ms, arbitrary byte splits, groups separated by 480..520 ms / 1.2 s gaps around the 500 ms flush ticker); every third stream runs end to end through DbSyncer.Sync() against a scripted master and a loopback model target, the others through the parser+sender pair (hook) on an in-process connection that records Send/Flush boundaries; the data commands applied at the target (tool bookkeeping stripped) must equal, in order and database, the reference filter pipeline over the source stream within 5 s of the last byte. distinct = configuration x arrival plan x observed batch partition"
+	r.Rule = "command streams from a master grammar (SELECT switches incl. re-selects and the configured target.db, single/multi-key writes in any letter case, PING, MULTI..EXEC blocks, sentinel hello publishes, EVAL/SCRIPT, opinfo, keep-alive newlines) x configurations (db white/black list, key white/black list, filter.lua, target.db, resume, sender.count {1,2,3,1024} x sender.size {1,64,65535,max}) x arrival plans (all at once, one command per ms, arbitrary byte splits, groups separated by 480..520 ms / 1.2 s gaps around the 500 ms flush ticker, a burst queued behind one slow target flush followed by silence); every third stream runs end to end through DbSyncer.Sync() against a scripted master and a loopback model target, the others through the parser+sender pair (hook) on an in-process connection that records Send/Flush boundaries; the data commands applied at the target (tool bookkeeping stripped) must equal, in order and database, the reference filter pipeline over the source stream within 5 s of the last byte. distinct = configuration x arrival plan x observed batch partition"
 	onDeath := func(d wk.Death) {
 		if d.Result.TimedOut {
 			r.Inconcl("C03 child watchdog: " + wk.Tail(d.Result.Stderr, 300))
